@@ -167,11 +167,11 @@ Section Defs.
 
   (** the box of the object created by the preceding [new_node]/[new_map] (in state [m2]) *)
   Lemma Res_box_alloc A m mi r o y m2 :
+    frame m2 mi -> get m2 o = Some y -> o_box y = BNotYet ->
     Res A m mi r -> (length (heap m) <= o)%nat ->
-    get m2 o = Some y -> o_box y = BNotYet -> frame m2 mi ->
     Res A m (box_alloc K o mi) r.
   Proof.
-    intros [F H] Hlen Hy Hb F2. split; [apply frame_box_alloc; assumption|].
+    intros F2 Hy Hb [F H] Hlen. split; [apply frame_box_alloc; assumption|].
     intros Hr. apply G_box_alloc; [|exact (H Hr)].
     intros x Ex. destruct (fr_obj _ _ F2 o y Hy) as (x' & Ex' & _ & N2).
     rewrite Ex in Ex'. injection Ex' as <-. exact (N2 Hb).
@@ -208,32 +208,19 @@ Ltac new_obj_facts HR K m E0 :=
   assert (Hlen : (length (heap m) <= length (heap E0))%nat)
     by (apply frame_len; eapply frame_trans; [apply HR|apply (mild_frame K); mild_solve]).
 
+Ltac adv_box HR K A m mi r0 o X :=
+  let H := fresh "HR" in
+  assert (H : Res K A m (box_alloc K o X) r0)
+    by (eapply (Res_box_alloc K A m X r0 o);
+        [ first [eassumption|apply frame_refl]
+        | first [eassumption|erewrite get_upd_eq by eassumption; reflexivity]
+        | first [eassumption|cbn; eassumption]
+        | eapply Res_mild; [exact HR | mild_solve]
+        | eassumption ]);
+  clear HR.
+
 Ltac step1 Hrec :=
   match goal with
-  | HR : Res ?K ?A ?m ?mi ?r0 |- context [box_alloc ?K ?o ?mi] =>
-    let H := fresh "HR" in
-    assert (H : Res K A m (box_alloc K o mi) r0)
-      by (eapply (Res_box_alloc K A m mi r0 o);
-          [exact HR|eassumption|eassumption|eassumption|first [eassumption|apply frame_refl]]);
-    clear HR
-  | HR : Res ?K ?A ?m ?mi ?r0 |- context [match new_node ?P ?cls ?E0 with _ => _ end] =>
-    new_obj_facts HR K m E0;
-    let H := fresh "HR" in
-    assert (H : Res K A m (new_node P cls E0).1 r0) by (eapply Res_mild; [exact HR | mild_solve]);
-    clear HR;
-    let Ho := fresh "Ho" in let Hg := fresh "Hg" in
-    pose proof (new_node_id P cls E0) as Ho; pose proof (new_node_get P cls E0) as Hg;
-    destruct (new_node P cls E0) as [? ?]; cbn [fst snd] in H, Ho, Hg;
-    subst; destruct Hg as (? & ? & ?)
-  | HR : Res ?K ?A ?m ?mi ?r0 |- context [match new_map ?E0 with _ => _ end] =>
-    new_obj_facts HR K m E0;
-    let H := fresh "HR" in
-    assert (H : Res K A m (new_map E0).1 r0) by (eapply Res_mild; [exact HR | mild_solve]);
-    clear HR;
-    let Ho := fresh "Ho" in let Hg := fresh "Hg" in
-    pose proof (new_map_id E0) as Ho; pose proof (new_map_get E0) as Hg;
-    destruct (new_map E0) as [? ?]; cbn [fst snd] in H, Ho, Hg;
-    subst; destruct Hg as (? & ? & ?)
   | HR : Res ?K ?A ?m ?mi ?r0 |- context [match ?X with _ => _ end] =>
     lazymatch X with
     | context [match _ with _ => _ end] => fail
@@ -241,6 +228,31 @@ Ltac step1 Hrec :=
     end;
     first
     [ lazymatch X with
+      | context [box_alloc K ?o ?Y] =>
+        lazymatch mi with context [box_alloc K o Y] => fail | _ => idtac end;
+        adv_box HR K A m mi r0 o Y
+      end
+    | lazymatch X with
+      | new_node ?P ?cls ?E0 =>
+        new_obj_facts HR K m E0;
+        let H := fresh "HR" in
+        assert (H : Res K A m (new_node P cls E0).1 r0) by (eapply Res_mild; [exact HR | mild_solve]);
+        clear HR;
+        let Ho := fresh "Ho" in let Hg := fresh "Hg" in
+        pose proof (new_node_id P cls E0) as Ho; pose proof (new_node_get P cls E0) as Hg;
+        destruct (new_node P cls E0) as [? ?]; cbn [fst snd] in H, Ho, Hg;
+        subst; destruct Hg as (? & ? & ?)
+      | new_map ?E0 =>
+        new_obj_facts HR K m E0;
+        let H := fresh "HR" in
+        assert (H : Res K A m (new_map E0).1 r0) by (eapply Res_mild; [exact HR | mild_solve]);
+        clear HR;
+        let Ho := fresh "Ho" in let Hg := fresh "Hg" in
+        pose proof (new_map_id E0) as Ho; pose proof (new_map_get E0) as Hg;
+        destruct (new_map E0) as [? ?]; cbn [fst snd] in H, Ho, Hg;
+        subst; destruct Hg as (? & ? & ?)
+      end
+    | lazymatch X with
       | unwinding (?rc ?c) ?E0 =>
         let H := fresh "HR" in
         assert (H : Res K A m (unwinding (rc c) E0).1 (unwinding (rc c) E0).2)
@@ -256,7 +268,7 @@ Ltac step1 Hrec :=
           by (first [ eapply Res_call; [exact Hrec | exact I | exact HR | nf_tac | mild_solve]
                     | eapply Res_call_collect;
                       [exact Hrec | exact HR | nf_tac | mild_solve | assumption] ]);
-        clear HR; destruct (rc c E0) as [? ?]; cbn [fst snd] in H
+        clear HR; destruct (rc c E0) as [? ?]; cbn [fst snd] in *
       end
     | lazymatch X with
       | weak_clone ?w ?E0 =>
@@ -277,6 +289,12 @@ Ltac step1 Hrec :=
   end.
 
 Ltac leaf Hrec :=
+  try match goal with
+  | HR : Res ?K ?A ?m ?mi ?r0 |- Res _ ?A ?m ?E _ =>
+    lazymatch E with context [box_alloc K ?o ?Y] =>
+      lazymatch mi with context [box_alloc K o Y] => fail | _ => idtac end;
+      adv_box HR K A m mi r0 o Y end
+  end;
   match goal with
   | HR : Res ?K ?A ?m ?mi ?r0 |- Res _ ?A ?m _ _ =>
     cbn [fst snd];
